@@ -37,13 +37,14 @@ def main():
     assert rc == 0, out
     try:
         shutil.copytree(sd, scratch / 'SEEDED')
-        rc0, out0 = sh(f'{PY} SEEDED/demo.py', cwd=scratch, timeout=600)
+        penv = dict(os.environ, PYTHONPATH=str(scratch))
+        rc0, out0 = sh(f'{PY} SEEDED/demo.py', cwd=scratch, env=penv, timeout=600)
         meta['ran'].append({'cmd': 'demo.py on the unchanged source', 'exit': rc0})
         rc, out = sh(f'git apply SEEDED/patch.diff', cwd=scratch)
         assert rc == 0, 'patch does not apply: ' + out
-        rct, outt = sh(f'{PY} -m pytest -q -p no:cacheprovider replicat/tests', cwd=scratch, timeout=1200)
+        rct, outt = sh(f'{PY} -m pytest -q -p no:cacheprovider replicat/tests', cwd=scratch, env=penv, timeout=1200)
         meta['ran'].append({'cmd': 'test-suite with the patch', 'exit': rct, 'tail': outt.strip().splitlines()[-1] if outt.strip() else ''})
-        rc1, out1 = sh(f'{PY} SEEDED/demo.py', cwd=scratch, timeout=600)
+        rc1, out1 = sh(f'{PY} SEEDED/demo.py', cwd=scratch, env=penv, timeout=600)
         meta['ran'].append({'cmd': 'demo.py with the patch', 'exit': rc1, 'tail': out1.strip().splitlines()[-3:]})
         meta['confirmed'] = (rc0 == 0 and rct == 0 and rc1 != 0)
     finally:
